@@ -83,6 +83,33 @@ def c01(res, tier, rng, wd):
                            "distinct by its frames+units+framing; every scenario is non-trivial (>= 1 frame processed by the real session)")
 
 
+# --------------------------------------------------------------------------- replay
+def replay(pid, path, wd, seed):
+    """re-run exactly the recorded scenario through its engine and let TLC judge it again"""
+    obj = json.load(open(path))
+    res = vf.Result(pid, "quick", seed)
+    res.write_evidence = False
+    eng = obj.get("engine")
+    if eng == "e1":
+        rejs = e1.check_scripts(res, [obj["scenario"]], wd, "replay")
+        report_e1(res, pid, rejs)
+    elif eng in REPLAYERS:
+        REPLAYERS[eng](res, pid, obj, wd)
+    else:
+        raise vf.ToolError(f"unknown engine in replay file: {eng}")
+    for fid, text in res.known_hits:
+        print(f"KNOWN-FINDING: property={pid} {fid} {text}")
+    for text, p in res.violations:
+        print(f"VIOLATION property={pid} replay={p}")
+        print(f"  detail: {text}")
+    if not res.violations:
+        print(f"replay of {path}: the property holds on this input")
+    return 1 if res.violations else 0
+
+
+REPLAYERS = {}
+
+
 # --------------------------------------------------------------------------- self-test (run by setup)
 def selftest():
     """Anti-vacuity: the binding spec <-> code must reject a corrupted or truncated recording."""
@@ -128,3 +155,137 @@ def selftest():
         shutil.rmtree(wd, ignore_errors=True)
     print("selftest", "ok" if ok else "FAILED")
     return 0 if ok else 2
+
+
+# --------------------------------------------------------------------------- E1 based checks
+E1_ASSUME = ["TLC and the transcription of the Modbus rules in ModbusPdu/Mbap/Rtu/ServerRef.tla",
+             "the harness's scripted stream and recording handlers (handler / authorization semantics are defined by ServerRef.tla)",
+             "byte-level input spaces are covered class-exhaustively and by sampling"]
+
+
+def sample_of(scs, k=2):
+    out = []
+    for i in range(0, len(scs), max(1, len(scs) // k))[:k]:
+        s = scs[i]
+        out.append({"tag": s["tag"], "framing": s["framing"], "units": s["units"], "auth": s["auth"],
+                    "decode": s["decode"], "first_steps": [json.dumps(x)[:160] for x in s["steps"][:3]]})
+    return out
+
+
+def run_e1(res, pid, scs, wd, name):
+    res.samples += sample_of(scs)
+    rejs = e1.check_scripts(res, scs, wd, name)
+    report_e1(res, pid, rejs)
+
+
+@check("C02")
+def c02(res, tier, rng, wd):
+    thorough = tier == "thorough"
+    lat = e1.full_lattice(rng)
+    scs = []
+    for framing in ("tcp", "rtu"):
+        scs += e1.gen_lattice_scenarios(rng, framing, per_scenario=20, sid0=len(scs),
+                                        limit=None if thorough else 500, auth_modes=AUTH_MODES)
+        scs += e1.gen_random_sequences(rng, framing, 400 if thorough else 60, len(scs), lat,
+                                       auth_modes=AUTH_MODES, p_invalid=0.5)
+    # nothing after a bad frame is processed: valid writes behind a malformed header / CRC error
+    for k in range(200 if thorough else 30):
+        framing = rng.choice(["tcp", "rtu"])
+        pre = [e1.random_valid_pdu(rng) for _ in range(rng.randint(0, 4))]
+        post = [e1.req_wsr(rng.randrange(100), 7), e1.req_wmc(3, [True] * 5)]
+        tx = rng.randrange(60000)
+        fr = [e1.frame(framing, tx + i, 1, p) for i, p in enumerate(pre)]
+        if framing == "tcp":
+            bad = rng.choice(list(e1.BAD_HEADERS.values()))(tx + 50, 1)
+        else:
+            bad = e1.rtu(1, e1.random_valid_pdu(rng), bad_crc=True)
+        fr += [bad] + [e1.frame(framing, tx + 60 + i, 1, p) for i, p in enumerate(post)]
+        data = [b for f in fr for b in f]
+        steps = [e1.rx(c) for c in (e1.chunk_random(rng, data) if rng.random() < 0.5 else [data])]
+        scs.append(e1.scenario(len(scs), framing, [1, 2], steps, seed=rng.randrange(100), tag="c02-after-bad-frame"))
+    run_e1(res, "C02", scs, wd, "c02")
+    res.assumptions = E1_ASSUME
+    return res.finish(rule="request class lattice and random sequences (half of the frames invalid: malformed, over-limit, "
+                           "wrong unit, unknown function) under every authorization mode, plus valid writes placed behind a bad "
+                           "frame; the decided object is the ordered log of handler invocations with full arguments; "
+                           "distinct = distinct frames+units+framing")
+
+
+@check("C05")
+def c05(res, tier, rng, wd):
+    thorough = tier == "thorough"
+    scs = e1.gen_c05(rng, 0, thorough)
+    run_e1(res, "C05", scs, wd, "c05")
+    res.assumptions = E1_ASSUME + ["server role only in this engine; the client role is exercised by the E2 part of this check"]
+    return res.finish(rule="pipelined MBAP streams of 1-4 receive-buffer capacities, a max-size frame, two short frames split at "
+                           "every offset, and each malformed header kind behind/ahead of valid frames; each stream under systematic "
+                           "chunkings (all, 1-byte, 259/260/261, 260 then trickle, random); MbapHead only sees the concatenation, so any "
+                           "dependence on the chunking is a rejection")
+
+
+@check("C06")
+def c06(res, tier, rng, wd):
+    thorough = tier == "thorough"
+    scs = e1.gen_c06(rng, 0, thorough)
+    run_e1(res, "C06", scs, wd, "c06")
+    res.assumptions = E1_ASSUME + ["CRC-16/MODBUS is computed by TLC from its own table (Rtu.tla), independent of the crc crate"]
+    return res.finish(rule="RTU request frames of every function (min/typical/max size, broadcast): every single-bit flip "
+                           "(sampled for the 250-byte frames in the quick tier), sampled double-bit flips, bursts of 2..16 bits, the same under "
+                           "byte-per-byte and random chunking; expected outcome from RtuHead on the corrupted stream; every emitted frame "
+                           "must equal RtuFrame(..) computed by TLC")
+
+
+@check("C07")
+def c07(res, tier, rng, wd):
+    thorough = tier == "thorough"
+    res.level = "exploration"
+    decs = e1.DECODES if thorough else [[0, 0, 0], [3, 2, 2]] + [rng.choice(e1.DECODES) for _ in range(4)]
+    scs = e1.gen_c07(rng, 0, 6000 if thorough else 700, decs)
+    run_e1(res, "C07", scs, wd, "c07")
+    res.assumptions = E1_ASSUME + ["coverage of the input space is that of a structured fuzzer (grammar-aware mutation + random bytes), "
+                                   "TLC decides each run: a panic, a task that never becomes idle, a watchdog hit or an unhonoured shutdown has no matching spec step",
+                                   "dev profile: overflow checks and debug assertions on"]
+    return res.finish(rule="hostile streams for the server session: random bytes, mutated valid traffic (bit flips, truncation, "
+                           "duplication, length lies, splices), boundary addresses, both framings, sampled decode levels; after each stream a "
+                           "sentinel exchange and shutdown must still be honoured")
+
+
+@check("C08")
+def c08(res, tier, rng, wd):
+    thorough = tier == "thorough"
+    scs = e1.gen_c08(rng, 0, thorough)
+    run_e1(res, "C08", scs, wd, "c08")
+    res.assumptions = E1_ASSUME + ["the role string reaches the session through the verif-hooks constructor; the certificate path is C09's"]
+    return res.finish(rule="8 request kinds x {allow, deny, built-in read-only} x {configured, unconfigured, broadcast} unit x 6 role "
+                           "strings with read-back after every write, plus random sequences under a per-request hash policy of "
+                           "(kind, unit, range, seed) mixed with invalid requests; the single auth event must carry the exact arguments and precede any effect")
+
+
+@check("C17")
+def c17(res, tier, rng, wd):
+    thorough = tier == "thorough"
+    scs = e1.gen_c17(rng, 0, thorough)
+    run_e1(res, "C17", scs, wd, "c17")
+    res.assumptions = E1_ASSUME
+    return res.finish(rule="unit ids (quick: boundary set + 8 random, thorough: all 256) x {valid read, valid writes, handler failure, "
+                           "over limit, malformed, unknown function} x handler maps of 0..3 units x RTU/TCP framing, with read-back of what "
+                           "broadcast writes left on every unit; silence is observed directly at quiescence points")
+
+
+@check("C20")
+def c20(res, tier, rng, wd):
+    thorough = tier == "thorough"
+    lat = e1.full_lattice(rng)
+    base = []
+    for framing in ("tcp", "rtu"):
+        base += e1.gen_lattice_scenarios(rng, framing, per_scenario=12, sid0=0, limit=120 if thorough else 48)
+        base += e1.gen_random_sequences(rng, framing, 40 if thorough else 10, 0, lat, auth_modes=AUTH_MODES[:5])
+    base += e1.gen_c05(rng, 0, False)[:: (3 if thorough else 12)]
+    scs = e1.with_decode_variants(rng, base, 0, positions=None if thorough else 3, all_levels=thorough)
+    run_e1(res, "C20", scs, wd, "c20")
+    res.assumptions = E1_ASSUME + ["a tracing subscriber at INFO is installed so the Display/Loggable re-parsing code runs",
+                                   "server role in this engine; client role is exercised by the E2 part of this check"]
+    return res.finish(rule="every base script (lattice, random sequences, chunked streams) at the lowest and highest decode level "
+                           "(thorough: all 36) and with a set_decode_level command injected (quick: 3 positions, thorough: every position, "
+                           "including between the chunks of a partial frame); the specification never reads the level, so one expected "
+                           "behaviour serves all variants")
